@@ -9,6 +9,7 @@ import (
 	"math"
 	"reflect"
 	"sort"
+	"strconv"
 	"strings"
 	"time"
 	"unsafe"
@@ -106,7 +107,8 @@ func JsonToSexp(json []byte, env *Zlisp) (Sexp, error) {
 func jsonQuote(s string) string {
 	by, err := json.Marshal(s)
 	if err != nil {
-		panic(err)
+		// cannot happen for a string; stay printable if it does.
+		return strconv.Quote(s)
 	}
 	return string(by)
 }
